@@ -54,7 +54,7 @@ pub fn spec(prop: &str) -> Option<PropSpec> {
         "C04" => s("C04", "exploration", 150000, 2250000, &["probe.read_checked_exact", "probe.read_checked_array_conflict"], &[],
             "documents from the generator family submitted in reachable states; read compared with the submitted document after every update; non-trivial = at least one update was checked; distinct = distinct op sequence hash",
             &["probe.read_checked_exact", "probe.read_checked_array_conflict", "probe.update_twice", "probe.commit_nothing_staged"]),
-        "C05" => s("C05", "exploration", 60000, 900000, &["probe.tree_prefix_checked"], &["probe.tree_checked"],
+        "C05" => s("C05", "exploration", 40000, 900000, &["probe.tree_prefix_checked"], &["probe.tree_checked"],
             "every object of every replica at every sync point and after every staging op: winner/conflicts vs the reference rule on the recorded revision set, plus re-insertion in seeded permutations with a check after every prefix; non-trivial = at least one tree with >= 2 revisions was permuted; distinct = distinct op sequence hash",
             &["probe.tree_prefix_checked", "probe.tree_prefix_dangling_parent", "probe.conflict_at_sync", "probe.three_live_leaves", "probe.revision_index_ge_10", "probe.resolve"]),
         "C11" => s("C11", "exploration", 100000, 1500000, &["probe.write_checked"], &["probe.delivered"],
@@ -63,7 +63,7 @@ pub fn spec(prop: &str) -> Option<PropSpec> {
         "C12" => s("C12", "exploration", 100000, 1500000, &["probe.commit_ok", "probe.snapshot", "probe.meld_items"], &[],
             "read() compared before/after commit, snapshot, meld and idle refresh/reload in reachable states; non-trivial = at least one such operation ran; distinct = distinct op sequence hash",
             &["probe.commit_with_array_conflict", "probe.commit_with_object_conflict", "probe.snapshot_staged_something", "probe.meld_items"]),
-        "C13" => s("C13", "exploration", 100000, 1500000, &["probe.block_read_back"], &["probe.commit_ok"],
+        "C13" => s("C13", "exploration", 60000, 1500000, &["probe.block_read_back"], &["probe.commit_ok"],
             "commit graph monitors around every commit and at every sync point; non-trivial = blocks were read back and compared with their files; distinct = distinct op sequence hash",
             &["probe.block_read_back", "probe.checkpoint_multihead", "probe.block_index_ge_10", "probe.graph_checked_in_time_travel"]),
         "C14" => s("C14", "exploration", 40000, 600000, &["probe.reload_until"], &[],
@@ -75,7 +75,7 @@ pub fn spec(prop: &str) -> Option<PropSpec> {
         "C16" => s("C16", "exploration", 60000, 900000, &["probe.array_revision_reconstructed"], &[],
             "chains of successive versions of flattened arrays with commits, snapshots and reopen under drawn cache capacities; non-trivial = stored revisions were reconstructed by the reference and compared with the submitted order; distinct = distinct op sequence hash",
             &["probe.array_revision_reconstructed", "probe.snapshot_staged_something"]),
-        "C19" => s("C19", "exploration", 60000, 900000, &["probe.identifier_checked"], &["probe.order_pair_checked"],
+        "C19" => s("C19", "exploration", 40000, 900000, &["probe.identifier_checked"], &["probe.order_pair_checked"],
             "every revision identifier of every tree at every sync point and after staging ops: print/parse, construction rule, content digest, order axioms; non-trivial = identifiers and pairs were checked; distinct = distinct op sequence hash",
             &["probe.identifier_checked", "probe.identifier_content_checked", "probe.order_triple_checked", "probe.identifier_index_ge_10", "probe.identifier_index_ge_100", "probe.same_edit", "probe.same_edit_two_heads"]),
         "C08" => s("C08", "exploration", 100000, 1500000, &["probe.commit_with_array_conflict", "probe.commit_with_object_conflict", "probe.resolve", "probe.snapshot"], &[],
@@ -87,9 +87,9 @@ pub fn spec(prop: &str) -> Option<PropSpec> {
         "C06" => s("C06", "exploration", 100000, 1500000, &["probe.array_merge_checked"], &[],
             "concurrent array edits on 2-4 replicas followed by synchronisation; constraints (1)-(5) of DESIGN 5.6 evaluated on read; non-trivial = at least one array with >= 2 live leaves was checked; distinct = distinct op sequence hash",
             &["probe.array_merge_checked"]),
-        "C09" => s("C09", "fault_enumeration", 25000, 375000, &["enum.crash_points"], &["enum.write_failures"],
-            "per generated history, for (up to 6) commit and meld operations in it: EVERY storage-write boundary is a crash point (snapshot of the durable map, reopened), and EVERY write position fails once, 2x and 3x in a row, plus a full disk, followed by retries; histories are sampled, boundaries and positions are enumerated completely; non-trivial = a history in which at least one target was enumerated; distinct = distinct op sequence hash",
-            &["enum.commit_targets", "enum.meld_targets", "enum.crash_points", "enum.write_failures", "enum.retries_completed", "fault.write_err", "fault.disk_full", "fault.crash_snapshot"]),
+        "C09" => s("C09", "fault_enumeration", 15000, 375000, &["enum.crash_points"], &["enum.write_failures"],
+            "per generated history, for (up to 6) commit and meld operations in it: EVERY storage-write boundary is a crash point (snapshot of the durable map, reopened; for commits also restarted, the same document submitted again and committed), and EVERY write position fails once, 2x and 3x in a row, plus a full disk, followed by retries; histories are sampled, boundaries and positions are enumerated completely; non-trivial = a history in which at least one target was enumerated; distinct = distinct op sequence hash",
+            &["enum.commit_targets", "enum.meld_targets", "enum.crash_points", "enum.crash_redo", "enum.write_failures", "enum.retries_completed", "fault.write_err", "fault.disk_full", "fault.crash_snapshot"]),
         "C10" => s("C10", "fault_enumeration", 20000, 300000, &["enum.damage_cases"], &["probe.damage_open_ok"],
             "per generated history, on the richest store: for EVERY item bit flips at first/last/8 seeded positions (thorough: every byte), truncation to 0/1/mid/len-1 (thorough: every length), deletion, all pairs of deletions (thorough: triples), and a fixed list of junk-file classes; at rest then open, in transit then refresh, and (packs only) under an already open replica followed by get_value of every revision; non-trivial = a history whose damage cases were enumerated and at least one damaged store opened; distinct = distinct op sequence hash",
             &["enum.damage_cases", "enum.damage_cases_in_transit", "enum.damage_cases_live", "probe.damage_live_read_refused", "probe.damage_open_ok", "probe.damage_open_err", "probe.damage_value_checked", "fault.damage_bitflip", "fault.damage_truncate", "fault.damage_delete", "fault.damage_junk"]),
